@@ -1091,6 +1091,83 @@ def bdiagMx : List (Obj α) → List (Mx α) → Mx α
 
 end stacks
 
+/-! ### `Operator.freeze`, `Function.slice`, `Function.join` (`operator/_operator.py`, `function.py`) -/
+
+section freeze
+variable {α : Type} [Add α] [Sub α] [Mul α] [Div α] [Neg α] [Zero α] [One α] [HasConj α] [HasRe α]
+
+/-- Python index normalisation: an index in `[-N, N)` ↦ position (`none`: out of range) -/
+def normIdx (N : Nat) (k : Int) : Option Nat :=
+  if k < -(N : Int) ∨ k ≥ (N : Int) then none
+  else some (if k < 0 then (k + N).toNat else k.toNat)
+
+/-- flat offset of block `p` -/
+def offsetOf (bs : List (List Nat)) (p : Nat) : Nat := ((bs.take p).map prodL).foldr (· + ·) 0
+
+/-- the flattened block array with block `v` (size `sz`) inserted at flat offset `off` -/
+@[noinline] def vinsert (n off sz : Nat) (v x : Vc α) : Vc α :=
+  trunc n (fun i => if i < off then x.get i else if i < off + sz then v.get (i - off) else x.get (i - sz))
+
+/-- shape of the remaining blocks: a plain shape when exactly one block remains -/
+def restShape (rest : List (List Nat)) : Shape :=
+  match rest with
+  | [b] => .plain b
+  | _ => .nested rest
+
+/-- `Operator.freeze(argnum, val)` (after repo commit ed13728: negative `argnum` normalised, below
+    `-N` rejected); `valSh`, `valDt` = shape and dtype of `val` -/
+def freeze (o : Obj α) (k : Int) (valSh : Shape) (valDt : DT) (val : Vc α) : Except Err (Obj α) :=
+  match o.md.inShape with
+  | .plain _ => .error .value
+  | .nested bs =>
+    match normIdx bs.length k with
+    | none => .error .value
+    | some p =>
+      if valSh ≠ .plain (bs.getD p []) then .error .shape
+      else
+        .ok (mkOp (restShape (bs.eraseIdx p)) o.md.outShape o.md.inDt o.md.outDt
+          (fun x => o.eval (vinsert o.n (offsetOf bs p) (prodL (bs.getD p [])) val x))
+          (fun dx => if dx = valDt then o.evalDt dx else .error .dtype))
+
+/-- a `scico.function.Function`: several array parameters -/
+structure Fn (α : Type) where
+  inShapes : List Shape
+  inDts : List DT
+  outShape : Shape
+  outDt : DT
+  /-- `_eval(*args)` on the list of (flattened) arguments -/
+  eval : List (Vc α) → Vc α
+  evalDt : List DT → Except Err DT
+
+/-- `Function.slice(index, *fix_args)` (after ed13728); an out-of-range index is `IndexError`
+    (reported as `other`) -/
+def Fn.slice (f : Fn α) (k : Int) (fixArgs : List (Vc α)) (fixDts : List DT) : Except Err (Obj α) :=
+  match normIdx f.inShapes.length k with
+  | none => .error .other
+  | some p =>
+    .ok (mkOp (f.inShapes.getD p (.plain [])) f.outShape (f.inDts.getD p .f32) f.outDt
+      (fun x => f.eval (fixArgs.take p ++ x :: fixArgs.drop p))
+      (fun dx => f.evalDt (fixDts.take p ++ dx :: fixDts.drop p)))
+
+/-- split a flattened block array into its blocks -/
+def splitBlocks : List Nat → Nat → Vc α → List (Vc α)
+  | [], _, _ => []
+  | sz :: rest, off, x => vslice off sz x :: splitBlocks rest (off + sz) x
+
+/-- `Function.join()`: one BlockArray input (parameters with plain shapes) -/
+def Fn.join (f : Fn α) : Except Err (Obj α) :=
+  match f.inDts with
+  | [] => .error .other
+  | d0 :: ds =>
+    if !(ds.all (· = d0)) then .error .dtype
+    else
+      .ok (mkOp (.nested (f.inShapes.map plainDims)) f.outShape d0 f.outDt
+        (fun x => f.eval (splitBlocks (f.inShapes.map Shape.size) 0 x))
+        (fun dx => f.evalDt (f.inDts.map (fun _ => dx))))
+
+end freeze
+
+
 /-! ### expressions -/
 
 /-- operator expressions; leaves carry real scico constructor arguments -/
